@@ -35,6 +35,8 @@ func init() {
 			{ID: "C07.13", Desc: "invalidation visits every reference of the list (any variant)", Run: func(c *Ctx) { ruleRefEnumeratorVisitsAll(c, "C07.13") }, MinSites: 1},
 			{ID: "C07.14", Desc: "a key that is already gone does not stop the invalidation (not-exist is recognised through errors.Is)", Run: func(c *Ctx) { ruleSentinelsByErrorsIs(c, "C07.14") }, MinSites: 1},
 			{ID: "C07.15", Desc: "relative Location / Content-Location references are resolved (parsed as URI references)", Run: func(c *Ctx) { ruleLocationParsedAsReference(c, "C07.15") }, MinSites: 1},
+			{ID: "C07.16", Desc: "the invalidation does not depend on the caller's context still being live", Run: func(c *Ctx) { ruleInvalidationIgnoresCallerContext(c, "C07.16") }, MinSites: 1},
+			{ID: "C07.17", Desc: "another port of the host is another origin (the written port precedes the default)", Run: func(c *Ctx) { ruleWrittenPortBeforeDefault(c, "C07.17") }, MinSites: 1},
 		},
 	})
 }
